@@ -578,4 +578,10 @@ theorem perm_flatMap_congr {α β : Type} (l : List α) (f g : α → List β) (
     simp only [List.flatMap_cons]
     exact List.Perm.append (h a List.mem_cons_self) (ih (fun x hx => h x (List.mem_cons_of_mem _ hx)))
 
+theorem contains_map_any (x : String) (f : String → String) (l : List String) :
+    (l.map f).contains x = l.any (fun T => x == f T) := by
+  induction l with
+  | nil => rfl
+  | cons a rest ih => rw [List.map_cons, List.contains_cons, ih, List.any_cons]
+
 end Gold.Lint
